@@ -229,4 +229,112 @@ theorem mftLens_bwd (py px Fy Fx : RegAxis) (lf : ℝ) (G : Fin Fy.n × Fin Fx.n
           (regCoord Fx.z Fx.δ) (regCoord Fy.z Fy.δ) lf (.scalar (((1 / lf) ^ 2 * (Fy.δ * Fx.δ) : ℝ) : ℂ))
           (flat2 G) (j.1 * px.n + j.2) := rfl
 
+/-! ## the executed pipeline (`lensForward`/`lensBackward`, Model/FraunhoferPipe.lean) at ℝ/ℂ
+
+The driver runs `lensForward`/`lensBackward` at `K = Rat`, `C = PSum`, `T = E = PSum.turns`, `unit = 1`; here the same
+functions at `K = ℝ`, `C = ℂ`, `T = expT`, `E = expE`, `unit = 2π`.  `lens_transform`: whatever method the modelled
+selection returns from sound inputs, the executed pipeline is `norm · T.fwd` / `norm⁻¹ · T.bwd` of a Fourier
+transform `T` that evaluates the Fourier sum and the adjoint sum on the scaled grid. -/
+
+/-- a real regular axis as the polymorphic axis the pipeline takes -/
+@[reducible] def axOf (a : RegAxis) : Ax ℝ := ⟨a.n, a.δ, a.z⟩
+
+theorem lensForward_fft (py px Fy Fx : RegAxis) (lf : ℝ) (My Mx : ℕ) (emu : Bool)
+    (oky : AxisOK (axisCfg py Fy lf My emu)) (okx : AxisOK (axisCfg px Fx lf Mx emu)) (norm : ℂ)
+    (E : Fin py.n × Fin px.n → ℂ) (k : Fin Fy.n × Fin Fx.n) :
+    lensForward expT expE (2 * Real.pi) Complex.ofReal norm .fft emu (axOf py) (axOf px) (axOf Fy) (axOf Fx) lf My Mx
+        (ext2 E) k.1 k.2
+      = norm * (fftTransform2 (axisCfg py Fy lf My emu) (axisCfg px Fx lf Mx emu) oky okx rfl).fwd E k := by
+  rw [mul_comm norm]; rfl
+
+theorem lensBackward_fft (py px Fy Fx : RegAxis) (lf : ℝ) (My Mx : ℕ) (emu : Bool)
+    (oky : AxisOK (axisCfg py Fy lf My emu)) (okx : AxisOK (axisCfg px Fx lf Mx emu)) (norm : ℂ)
+    (G : Fin Fy.n × Fin Fx.n → ℂ) (j : Fin py.n × Fin px.n) :
+    lensBackward expT expE (starRingEnd ℂ) (2 * Real.pi) Complex.ofReal (fun r => |r|) norm .fft emu (axOf py) (axOf px)
+        (axOf Fy) (axOf Fx) lf My Mx (ext2 G) j.1 j.2
+      = norm⁻¹ * (fftTransform2 (axisCfg py Fy lf My emu) (axisCfg px Fx lf Mx emu) oky okx rfl).bwd G j := by
+  rw [mul_comm norm⁻¹]; rfl
+
+theorem lensForward_mft (py px Fy Fx : RegAxis) (lf : ℝ) (My Mx : ℕ) (emu : Bool) (norm : ℂ)
+    (E : Fin py.n × Fin px.n → ℂ) (k : Fin Fy.n × Fin Fx.n) :
+    lensForward expT expE (2 * Real.pi) Complex.ofReal norm .mft emu (axOf py) (axOf px) (axOf Fy) (axOf Fx) lf My Mx
+        (ext2 E) k.1 k.2
+      = norm * (mftLens py px Fy Fx lf).fwd E k := by
+  rw [mul_comm norm]; rfl
+
+theorem lensBackward_mft (py px Fy Fx : RegAxis) (lf : ℝ) (My Mx : ℕ) (emu : Bool) (norm : ℂ)
+    (hy : 0 < Fy.δ) (hx : 0 < Fx.δ) (G : Fin Fy.n × Fin Fx.n → ℂ) (j : Fin py.n × Fin px.n) :
+    lensBackward expT expE (starRingEnd ℂ) (2 * Real.pi) Complex.ofReal (fun r => |r|) norm .mft emu (axOf py) (axOf px)
+        (axOf Fy) (axOf Fx) lf My Mx (ext2 G) j.1 j.2
+      = norm⁻¹ * (mftLens py px Fy Fx lf).bwd G j := by
+  have hw : (1 / lf) * (1 / lf) * (|Fy.δ| * |Fx.δ|) = (1 / lf) ^ 2 * (Fy.δ * Fx.δ) := by
+    rw [abs_of_pos hy, abs_of_pos hx]; ring
+  rw [mul_comm norm⁻¹]
+  unfold lensBackward
+  simp only [hw]
+  rfl
+
+/-- what the modelled `make_fourier_transform` can return for two regular Cartesian 2-D grids -/
+theorem choose_regular_cases {numFft cheaper : Bool} {m : Method}
+    (hm : (Fft.choose detectFix regDesc (some ⟨regDesc, numFft⟩) cheaper).map (·.method) = some m) :
+    m = .mft ∨ (m = .fft ∧ numFft = true) := by
+  cases numFft <;> cases cheaper <;>
+    simp [Fft.choose, detectFix, detectLit, regDesc, GridDesc.isRegular, GridDesc.isSeparated] at hm <;>
+    simp [← hm]
+
+/-- **The executed pipeline is a Fourier transform of the theorems.**  `numFft`/`My Mx` are the inputs the executable
+selection gets from `classify` (`classify_native_2d`: they satisfy `hn`); `cheaper` is the planner's outcome. -/
+theorem lens_transform (py px Fy Fx : RegAxis) (lf : ℝ) (My Mx : ℕ) (emu numFft cheaper : Bool) (m : Method)
+    (hm : (Fft.choose detectFix regDesc (some ⟨regDesc, numFft⟩) cheaper).map (·.method) = some m)
+    (hn : numFft = true → lf ≠ 0 ∧ NativeAxis py Fy lf My ∧ NativeAxis px Fx lf Mx) :
+    ∃ T : FourierTransform (Fin py.n × Fin px.n) (Fin Fy.n × Fin Fx.n),
+      EvaluatesFourierSum T (regGrid2 py px) ((regGrid2 Fy Fx).scaled (2 * Real.pi / lf)) ∧
+      EvaluatesAdjointSum T (regGrid2 py px) ((regGrid2 Fy Fx).scaled (2 * Real.pi / lf)) ∧
+      (∀ (norm : ℂ) E k, lensForward expT expE (2 * Real.pi) Complex.ofReal norm m emu (axOf py) (axOf px) (axOf Fy)
+          (axOf Fx) lf My Mx (ext2 E) k.1 k.2 = norm * T.fwd E k) ∧
+      (0 < Fy.δ → 0 < Fx.δ → ∀ (norm : ℂ) G j, lensBackward expT expE (starRingEnd ℂ) (2 * Real.pi) Complex.ofReal
+          (fun r => |r|) norm m emu (axOf py) (axOf px) (axOf Fy) (axOf Fx) lf My Mx (ext2 G) j.1 j.2
+            = norm⁻¹ * T.bwd G j) := by
+  rcases choose_regular_cases hm with rfl | ⟨rfl, hnum⟩
+  · exact ⟨mftLens py px Fy Fx lf, mftLens_evaluates _ _ _ _ _, mftLens_adjoint _ _ _ _ _,
+      fun norm E k => lensForward_mft py px Fy Fx lf My Mx emu norm E k,
+      fun hy hx norm G j => lensBackward_mft py px Fy Fx lf My Mx emu norm hy hx G j⟩
+  · obtain ⟨hlf, hy, hx⟩ := hn hnum
+    refine ⟨fftTransform2 (axisCfg py Fy lf My emu) (axisCfg px Fx lf Mx emu) (axisCfg_ok hy hlf emu)
+      (axisCfg_ok hx hlf emu) rfl, ?_, ?_, fun norm E k => lensForward_fft py px Fy Fx lf My Mx emu _ _ norm E k,
+      fun _ _ norm G j => lensBackward_fft py px Fy Fx lf My Mx emu _ _ norm G j⟩
+    · rw [← uvGrid2_axisCfg py px Fy Fx lf My Mx emu, ← pupilGrid2_axisCfg py px Fy Fx lf My Mx emu]
+      exact fft2_evaluates _ _ _ _ _
+    · rw [← uvGrid2_axisCfg py px Fy Fx lf My Mx emu, ← pupilGrid2_axisCfg py px Fy Fx lf My Mx emu]
+      exact fft2_adjoint _ _ _ _ _
+
+/-- Parseval on a full conjugate pair for **any** transform that evaluates the Fourier sum there -/
+theorem parseval_of_full {py px Fy Fx : RegAxis} {lf : ℝ} (h : FullAt py px Fy Fx lf)
+    {T : FourierTransform (Fin py.n × Fin px.n) (Fin Fy.n × Fin Fx.n)}
+    (hT : EvaluatesFourierSum T (regGrid2 py px) ((regGrid2 Fy Fx).scaled (2 * Real.pi / lf))) :
+    ParsevalOn T (regGrid2 py px) ((regGrid2 Fy Fx).scaled (2 * Real.pi / lf)) := by
+  have hE : EvaluatesFourierSum (fftFull py px Fy Fx lf h) (regGrid2 py px)
+      ((regGrid2 Fy Fx).scaled (2 * Real.pi / lf)) := by
+    rw [← uvGrid2_axisCfg py px Fy Fx lf Fy.n Fx.n false, ← pupilGrid2_axisCfg py px Fy Fx lf Fy.n Fx.n false]
+    exact fft2_evaluates _ _ _ _ _
+  refine parsevalOn_of_evaluates hT hE ?_
+  rw [← uvGrid2_axisCfg py px Fy Fx lf Fy.n Fx.n false, ← pupilGrid2_axisCfg py px Fy Fx lf Fy.n Fx.n false]
+  exact fft2_parseval _ _ _ _ _ rfl rfl
+
+/-- … and `backward ∘ forward = id` for any transform that evaluates both sums -/
+theorem inverse_of_full {py px Fy Fx : RegAxis} {lf : ℝ} (h : FullAt py px Fy Fx lf)
+    {T : FourierTransform (Fin py.n × Fin px.n) (Fin Fy.n × Fin Fx.n)}
+    (hT : EvaluatesFourierSum T (regGrid2 py px) ((regGrid2 Fy Fx).scaled (2 * Real.pi / lf)))
+    (hA : EvaluatesAdjointSum T (regGrid2 py px) ((regGrid2 Fy Fx).scaled (2 * Real.pi / lf))) :
+    InverseOn T := by
+  have hE : EvaluatesFourierSum (fftFull py px Fy Fx lf h) (regGrid2 py px)
+      ((regGrid2 Fy Fx).scaled (2 * Real.pi / lf)) := by
+    rw [← uvGrid2_axisCfg py px Fy Fx lf Fy.n Fx.n false, ← pupilGrid2_axisCfg py px Fy Fx lf Fy.n Fx.n false]
+    exact fft2_evaluates _ _ _ _ _
+  have hA' : EvaluatesAdjointSum (fftFull py px Fy Fx lf h) (regGrid2 py px)
+      ((regGrid2 Fy Fx).scaled (2 * Real.pi / lf)) := by
+    rw [← uvGrid2_axisCfg py px Fy Fx lf Fy.n Fx.n false, ← pupilGrid2_axisCfg py px Fy Fx lf Fy.n Fx.n false]
+    exact fft2_adjoint _ _ _ _ _
+  exact inverseOn_of_evaluates hT hE hA hA' (fft2_inverse _ _ _ _ _ rfl rfl)
+
 end HcipyVerif.Fraunhofer
